@@ -10,6 +10,7 @@ import Rpft.Props.C02
 import Rpft.Props.C17
 import Rpft.Lemmas.ActionCodec
 import Rpft.Gen.Tables
+import Rpft.Canon
 set_option linter.unusedSimpArgs false
 set_option linter.unusedVariables false
 namespace Rpft.Props.C04
@@ -62,22 +63,30 @@ open Rpft.ActionCodec
 
 /-- T1: the constants of the codec are the ones in the source (action type ↔ row type tables of
 both directions, keys written per action class, attachment kinds and the cut, contact
-properties, default scheme, limits, HTTP methods). -/
+properties, default scheme, limits, HTTP methods).  Dispatch / export tables are lookups on distinct
+keys and the no-action / contact-property / HTTP-method lists are membership tests: compared up to
+order; the media kinds in source order (the order in which attachments are appended). -/
 theorem tables_agree_actcodec :
-    Gen.acExportRowType = exportRowType ∧ Gen.acPassThrough = passThroughTypes ∧
-    Gen.acExportKeys = exportKeys ∧
-    Gen.acParseDispatch = parseDispatch ∧ Gen.acParsePrefix = setContactPrefix ∧
+    Canon.sameMap Gen.acExportRowType exportRowType ∧ Canon.sameSet Gen.acPassThrough passThroughTypes ∧
+    Canon.sortPL Gen.acExportKeys = Canon.sortPL exportKeys ∧
+    Canon.sameMap Gen.acParseDispatch parseDispatch ∧ Gen.acParsePrefix = setContactPrefix ∧
     Gen.acParsePrefixCtor = setContactPrefix ++ "{}".toList ∧
     Gen.acParseReplaceNeedles = [setContactPrefix] ∧
-    Gen.acNoActionRowTypes = noActionRowTypes ∧ Gen.acNodeDispatch = nodeDispatch ∧
+    Canon.sameSet Gen.acNoActionRowTypes noActionRowTypes ∧ Canon.sameMap Gen.acNodeDispatch nodeDispatch ∧
     Gen.acMediaKindsExport = mediaKinds ∧ Gen.acMediaKindsParse = mediaKinds ∧
     Gen.acMediaCut = mediaCut ∧ (∀ t ∈ mediaKinds, (t ++ [':']).length = mediaCut) ∧
-    Gen.acContactPropsLoad = contactProps ∧ Gen.acContactPropsParse = contactProps ∧
+    Canon.sameSet Gen.acContactPropsLoad contactProps ∧ Canon.sameSet Gen.acContactPropsParse contactProps ∧
     Gen.acDefaultSchemeExport = defaultScheme ∧ Gen.acDefaultSchemeParse = defaultScheme ∧
     Gen.cliMaxFieldValueLen = maxFieldValue ∧ Gen.cliMaxRunResultLen = maxResultValue ∧
     Gen.cliMaxFieldKeyLen = Campaign.maxKeyLen ∧ Gen.cliEmptyTextChecked = true ∧
-    Gen.cliHttpMethods = httpMethods ∧ Gen.cliDefaultHttpMethod = defaultMethod := by
+    Canon.sameSet Gen.cliHttpMethods httpMethods ∧ Gen.cliDefaultHttpMethod = defaultMethod := by
   decide
+
+/-- the lookup tables compared up to order above have unique keys (first-match lookup does not
+depend on their order) -/
+theorem actcodec_keys_unique :
+    Canon.uniqueKeys exportRowType = true ∧ Canon.uniqueKeys exportKeys = true ∧
+    Canon.uniqueKeys parseDispatch = true ∧ Canon.uniqueKeys nodeDispatch = true := by decide
 
 /-- the enumeration `ContactProp` is the source's property list -/
 theorem contactProps_enum :
